@@ -177,6 +177,17 @@ CLAIMED["C16"] = dict(
     technique="contract-based deductive verification: glue contracts over assumed library contracts, loop invariants on the real AST, z3",
     design="DESIGN.md §3 C16")
 
+CLAIMED["C04"] = dict(
+    text="Interface obligations over the real AST: get_dim() equals the shape of get_table() for all table classes (symbolic rows); "
+         "get_bytes() of every image class returns a stream at position 0 over the stored payload and every image constructor call site "
+         "passes size_bytes == len(payload) and a positive number; populate_from_path; about 110 accessors raise nothing on well-typed "
+         "objects; well-formed Unicode as a refinement predicate with an obligation at every chr() / decode() site of own code; metadata "
+         "readers copy each documented property unchanged. Two recorded known findings (document-chosen codecs that decode to surrogates).",
+    note="Assumed: fields hold their declared types; models of io.BytesIO, pathlib, float/round, CPython codecs; strings produced inside "
+         "third-party libraries are well-formed (stdlib email is an open case); the fixture sweep of all accessors is a validation, not a proof.",
+    technique="contract-based deductive verification: accessor contracts + refinement-predicate obligations at character sources over the real AST, z3; AST dataflow at constructor sites",
+    design="DESIGN.md §3 C04")
+
 PENDING = {}
 
 ALL = [f"C{i:02d}" for i in range(1, 21)]
